@@ -12,6 +12,8 @@ ASSUME = [
     "several events may arrive within one reactor turn: zero-delay timers (mappings already expired on arrival) run at the next "
     "Advance, which may be by 0; the lookup clauses are waived for such an entry until the reactor has turned",
     "each name has its own pool of addresses (address lookups are unambiguous)",
+    "a third of the executions have a listener that looks the mapping up from inside its 'expired' handler (it must be gone), another "
+    "third a second listener whose 'expired' handler raises (the map must be unaffected; a reactor logs the error and goes on)",
     "the model's tick is replayed as 7 s, 5 h and 13 h (offsets then cross 24 h and reach several days)",
 ]
 TICKS = [7, 5 * 3600, 13 * 3600]
@@ -64,7 +66,7 @@ def run(pid, tier, seed):
         combos = [(TICKS[(i + j) % 3], SYNTAXES[(i // 3 + j) % 3]) for j in range(3)] if tier == "thorough" or src == "tlc" \
             else [(TICKS[i % 3], SYNTAXES[(i // 3) % 3])]
         for tick, syn in combos:
-            t = am.replay(s, tick, syn)
+            t = am.replay(s, tick, syn, ["plain", "probe", "raise"][i % 3])
             t["src"] = src
             traces.append(t)
         if any(e["a"] == "Advance" for e in s) and sum(1 for e in s if e["a"] == "Event") >= 2:
@@ -93,10 +95,10 @@ def run(pid, tier, seed):
             if n < 5:
                 k = x["matched"]
                 st = traces[i]["steps"][k]
-                rep.violation("real execution is not a behaviour of AddrMapM (tick %ds, syntax %s): step %d %s observed %s"
-                              % (traces[i]["tick"], traces[i]["syntax"], k + 1,
+                rep.violation("real execution is not a behaviour of AddrMapM (tick %ds, syntax %s, listener mode %s): step %d %s observed %s"
+                              % (traces[i]["tick"], traces[i]["syntax"], traces[i]["lmode"], k + 1,
                                  json.dumps(dict((a, b) for a, b in st.items() if a != "obs")), json.dumps(st["obs"])),
-                              dict(property=pid, module="AddrMapM", tick=traces[i]["tick"], syntax=traces[i]["syntax"],
+                              dict(property=pid, module="AddrMapM", tick=traces[i]["tick"], syntax=traces[i]["syntax"], lmode=traces[i]["lmode"],
                                    script=strip(traces[i]), matched=k, failing_step=st, errors=traces[i]["errors"]))
                 n += 1
         rep.cov["rejected_traces"] = len(bad)
@@ -112,7 +114,7 @@ def strip(t):
 
 def replay(pid, path):
     p = json.load(open(path))
-    t = am.replay(p["script"], p["tick"], p["syntax"])
+    t = am.replay(p["script"], p["tick"], p["syntax"], p.get("lmode", "plain"))
     res, r = tlc.validate_traces("AddrMapMTrace", "AddrMapMTrace.cfg", [t])
     x = res[0]
     print("replay: matched %d of %d steps" % (x["matched"], x["wanted"]))
